@@ -1,10 +1,17 @@
 """what MANIFEST.json claims, per property"""
-SOURCE_COMMITS = ["586d1d8", "84b55ce", "952a903"]
+SOURCE_COMMITS = ["586d1d8", "84b55ce", "952a903", "a66a89b", "c13e5b8", "004b113"]
 NOT_APPLICABLE = {}
 PROOF_NOTE = ("Trusted: Lean 4.33 kernel and the axioms printed per theorem (propext, Quot.sound, Classical.choice at most); the statements in lean/Proofs/Props; "
               "the hand-written model is validated against the C by differential execution (bounded by generator quality), not derived from it; "
               "translator and harness themselves.")
 CHECKS = {
+ "C02": dict(category="proof",
+   text=("Theorems (all file contents, all parameter settings, all split-block chains): the CAB block reader never reads past d->input and every block it delivers leaves room for "
+         "the Quantum trailer byte, against the buffer and limit constants extracted from today's cab.h; array dimensions of the decoder tables are those the models assume. "
+         "Decoder-internal bounds, CHM/KWAJ/OAB parsing and call-sequence safety are validated, not proved: ASan+UBSan runs over malformed variants of generated archives of all five "
+         "formats, the shipped crashers and guard-directed constructions, with model/implementation agreement on statuses. Found and repaired on the way: c13e5b8, 004b113, a66a89b."),
+   note=PROOF_NOTE + " Sanitizers see heap/stack/global object bounds, not sub-object overflows inside one allocation.",
+   technique="Lean 4 theorems on the block reader/feeder model + sanitizer-instrumented differential fuzzing of malformed inputs"),
  "C01": dict(category="proof",
    text=("Kernel-checked: every decoder table extracted from today's source (LZX position slots/extra bits/position base, Quantum position and length tables, "
          "deflate length/distance tables, bit-length order, LSB masks) equals its closed form from the format documents, and the CAB record layout constants are those the "
